@@ -83,7 +83,7 @@ def run_card(pid, tier, seed):
     names = harness_names(hf, cfg['prefix'])
     if not names:
         raise Undecided('no harnesses for ' + pid)
-    r = run_kani(hf, names, timeout=600)
+    r = run_kani(hf, names, timeout=2400)
     if r['total'] != len(names):
         raise Undecided('kani ran %d harnesses, expected %d' % (r['total'], len(names)))
     if not r['failed']:
@@ -167,7 +167,7 @@ def run_token(names, timeout):
     return r
 
 
-def run_card_names(names, timeout=900):
+def run_card_names(names, timeout=2400):
     hf = os.path.join(VERIF, 'kani', 'card_harness.rs')
     r = run_kani(hf, names, timeout=timeout)
     r['names'] = names
